@@ -138,6 +138,10 @@ fn spice(rng: &mut Rng, def: &mut Definition) {
     }
     def.meta.meta.push(("ключ".into(), "値 😀".into()));
     def.meta.source = "généré".into();
+    // written by another version of the library than the running one: the export keeps what the definition says
+    if rng.chance(2, 3) {
+        def.meta.version = rng.pick(&["0.0.0", "0.9.0", "99.1.0-β", ""]).to_string();
+    }
     // extreme scores on specials and unigram entries
     let extremes = [0.0f32, -0.0, f32::MIN_POSITIVE / 2.0, f32::INFINITY, f32::NEG_INFINITY, 1e-40, -3.5];
     for s in def.specials.iter_mut() {
@@ -339,7 +343,7 @@ pub fn gen(rng: &mut Rng, thorough: bool, out: &mut Sink) {
                     Model::WordPiece { max_word_chars, .. } => format!("wordpiece max_word_chars={}", max_word_chars),
                     _ => "other".to_string(),
                 };
-                (v, s, format!("{:?}", d.config), sc, params)
+                (v, s, format!("{:?}", d.config), sc, params, (d.meta.version.clone(), d.meta.source.clone(), d.meta.meta.clone()))
             };
             Some(key(&def) == key(&e))
         });
